@@ -219,7 +219,21 @@ func runPressure(seed uint64, idx int) (in sx.V, out sx.V, tags []string) {
 	steps := r.Range(6, 30)
 	scenario := r.Intn(5) // 4: a client that never reads sends garbage at the end
 	for i := 0; i < steps && ok; i++ {
-		switch r.Intn(13) {
+		switch r.Intn(14) {
+		case 13:
+			// one read full of requests the proxy answers itself, from a client that is not reading: the
+			// replies fill its socket, the first write that finds it full (EAGAIN with an empty backlog)
+			// parks the reply - and the rest of that read must still be served
+			c := r.Intn(nc)
+			if !(scenario == 4 && c == 0) {
+				var b []byte
+				for k := r.Range(700, 1500); k > 0; k-- {
+					w.reqSeq[c]++
+					b = append(b, []byte("*1\r\n$4\r\nPING\r\n")...)
+				}
+				ok = w.send(c, b)
+				tagset["read-full-of-local-replies"] = true
+			}
 		case 12:
 			// every pending request is answered while the client reads nothing (its replies pile up in the
 			// ring and the overflow list); the client then reads a little - one writable event drains part
